@@ -25,7 +25,8 @@ LEVEL_TEXT = ("The decision function is compared with the library's own version 
               ' Also responses that carry a protocolVersion member between negotiation and batch.'
               " Also strings the library's own format validator accepts although they are not plain ASCII dates (other Unicode digits, trailing line breaks, other dashes): decision and ordering must agree on them."
               ' Also a re-entered client whose second handshake settles on the same version as the first.'
-              ' Also a batch rejected while a message of several pipe buffers is being written to the child (both lines must stay whole), odd version strings, re-entry under the same version.')
+              ' Also a batch rejected while a message of several pipe buffers is being written to the child (both lines must stay whole), odd version strings, re-entry under the same version.'
+              " Also a connection on which nothing is negotiated, opened (directly, as a client object, from a spawned task) inside each handshake wrapper's open block.")
 LEVEL_NOTE = ("Trusted: ScriptedProcess stand-in for anyio.open_process (the OS pipe is covered by C05's real-child tier); "
               "the reference validator in vf/ref.py decides which batch members are valid.")
 RULE = ("A: version strings (year x month x day grid); B: (version schedule, batch members). Non-trivial A: string parses; "
